@@ -464,6 +464,30 @@ def client_flags_case():
                     want = (1 if allow else 0) | (2 if replace else 0) | (4 if dnq else 0)
                     if len(sent) != 1 or sent[0][0] != 'RequestName' or sent[0][1] != ['org.verif.N', want]:
                         return 'requestBusName(allowReplacement=%s, replaceExisting=%s, doNotQueue=%s, errbackUnlessAcquired=%s) sent %r, expected flags %d' % (allow, replace, dnq, errback, sent, want)
+    # the reply code states the caller's relation to the name: owner now (1) or already (4) -> the code; waiting (2) or refused
+    # (3) -> FailedToAcquireName carrying the code, unless the caller asked for the plain code
+    from txdbus import error
+    for errback in (False, True):
+        for code in (1, 2, 3, 4):
+            c = client.DBusClientConnection()
+            ds = []
+
+            def callRemote(path, member, **kw):
+                d = defer.Deferred()
+                ds.append(d)
+                return d
+            c.callRemote = callRemote
+            out = []
+            c.requestBusName('org.verif.N', errbackUnlessAcquired=errback).addBoth(out.append)
+            ds[0].callback(code)
+            owner = code in (1, 4)
+            if len(out) != 1:
+                return 'requestBusName: reply code %d completed the Deferred %d times' % (code, len(out))
+            if errback and not owner:
+                if not (hasattr(out[0], 'check') and out[0].check(error.FailedToAcquireName)) or getattr(out[0].value, 'returnCode', None) != code:
+                    return 'requestBusName(errbackUnlessAcquired=True): reply code %d gave %r, expected FailedToAcquireName(%d)' % (code, out[0], code)
+            elif out[0] != code:
+                return 'requestBusName(errbackUnlessAcquired=%s): reply code %d (the caller %s the name) gave %r, expected the code' % (errback, code, 'owns' if owner else 'does not own', out[0])
     return None
 
 
